@@ -1045,7 +1045,8 @@ def wait_once(ctx, rep, rule):
                 for a in ast.walk(node):
                     for c in ast.iter_child_nodes(a):
                         parents[id(c)] = a
-                for call in [x for x in ast.walk(node) if isinstance(x, ast.Call) and ast.unparse(x.func).endswith(("._policer.wait", "._policer.wait_sync"))]:
+                for call in [x for x in ast.walk(node) if isinstance(x, ast.Call) and isinstance(x.func, ast.Attribute) and x.func.attr in ("wait", "wait_sync") and
+                             ("policer" in ast.unparse(x.func.value) or isinstance(x.func.value, ast.Name))]:
                     n += 1
                     loops, cur, flagged = [], call, False
                     while id(cur) in parents and cur is not node:
@@ -1080,7 +1081,7 @@ def wait_once(ctx, rep, rule):
                         rep.violation(rule, key, "the wait stands in a loop that comes round again after `except %s` (line %d): a request whose send is "
                                       "retried consults the limiter again and takes a second slot" % (ast.unparse(retry.type) if retry.type else "", retry.lineno),
                                       ctx.py.loc(mod, call), obligation=True)
-    if n < 5:
+    if n < 1:     # how many call sites there are is the refactorer's business (a shared helper leaves one); none at all is C19.guard's finding too
         rep.missing(rule, "calls of the limiter in the clients (found %d)" % n)
 
 
